@@ -16,6 +16,8 @@ import SlVerif.Model.Pprf
     extension variant : `SoftSpoken.receiverProcess` / `SoftSpoken.senderProcess` on all-but-one seeds,
     base-OT variant   : two `Endemic` base OTs (256 instances each) under two derived session ids, each key expanded to
                         OT_WIDTH strings with the SoftSpoken "randomize" transcript.
+  The receiver's final check is  `mu_hash == mu_prime_hash  &&  every eta[k] is a canonical scalar encoding`
+  (`checkOk`; the second conjunct was added to both receivers by the repair of finding D10).
   rng consumption (byte tape) in the order of the Rust:
     RVOLEReceiver::new (ext)   beta = fill_bytes(L_BYTES), then SoftSpoken's padding bytes;
     RVOLESender::process (ext) RHO × Scalar::generate_biased (eta), nothing else;
@@ -220,12 +222,19 @@ def receiverMu (O : Query → m Bytes) (sid beta : Bytes) (VX : List (List Nat))
   let theta ← thetaAll O sid msg.aTilde
   muHashOf O sid (muReceiver theta beta VX (decodeTable msg.aTilde) (msg.eta.map ofBe))
 
+/-- `eta_is_canonical`: every `eta[k]` is the canonical encoding of a scalar (`Scalar::from_repr(eta[k]).is_some()`, i.e.
+    the big-endian value is below the group order) -/
+def etaCanonical (eta : List Bytes) : Bool := eta.all fun e => decide (beToNat e < secpQ)
+
+/-- the receiver's final check: NOT (`mu_hash.ct_ne(&mu_prime_hash) | !eta_is_canonical`) -/
+def checkOk (msg : Msg2) (muHash' : Bytes) : Bool := decide (msg.muHash = muHash') && etaCanonical msg.eta
+
 /-- `RVOLEReceiver::process` from the theta transcript on (the gadget vector is only generated after the check) -/
 def receiverCore (O : Query → m Bytes) (sid beta : Bytes) (vx : List (List Bytes)) (msg : Msg2) :
     m (Except String (List Nat)) := do
   let VX := decodeTable vx
   let muHash' ← receiverMu O sid beta VX msg
-  if msg.muHash ≠ muHash' then pure (.error checkFailed) else do
+  if checkOk msg muHash' = false then pure (.error checkFailed) else do
     let g ← gadgetVec O sid
     pure (.ok (receiverD g beta VX (decodeTable msg.aTilde)))
 
@@ -319,12 +328,14 @@ deriving Repr
 
 /-- `RVOLEReceiver::new(session_id, &mut RVOLEMsg1::default(), rng)`: `(state, message 1, b, rest of the tape)` -/
 def receiverNewOt (O : Query → m Bytes) (sid : Bytes) (tape : Tape) : m (OtRecvState × Msg1 × Nat × Tape) := do
-  let (sidA, sidB) ← otSids O sid
-  let (stA, m1a, tape) ← Endemic.recvNew O sidA tape
-  let (stB, m1b, tape) ← Endemic.recvNew O sidB tape
-  let beta := stA.choiceBits ++ stB.choiceBits
+  let sids ← otSids O sid
+  -- results are taken apart with projections (`(state, message 1, rest of the tape)`), which keeps the definition
+  -- transparent to the proofs at `m := Id`
+  let ra ← Endemic.recvNew O sids.1 tape
+  let rb ← Endemic.recvNew O sids.2 ra.2.2
+  let beta := ra.1.choiceBits ++ rb.1.choiceBits
   let g ← gadgetVec O sid
-  pure ({ sid, beta, stA, stB }, { a := m1a, b := m1b }, gadgetDot g beta, tape)
+  pure ({ sid, beta, stA := ra.1, stB := rb.1 }, { a := ra.2.1, b := rb.2.1 }, gadgetDot g beta, rb.2.2)
 
 def decodeError : String := "Decode error"
 def baseOtError : String := "Base OT error"
@@ -370,19 +381,19 @@ def senderVOt (O : Query → m Bytes) (sid : Bytes) (keys : List (Bytes × Bytes
 
 /-- `RVOLESender::process(session_id, a, &rvole_output_1, &mut RVOLEMsg2::default(), rng)` -/
 def senderProcessOt (O : Query → m Bytes) (sid : Bytes) (a : List Nat) (msg1 : Msg1) (tape : Tape) : m SendOtResult := do
-  let (sidA, sidB) ← otSids O sid
-  let (ra, tape) ← Endemic.sendProcess O sidA msg1.a tape
-  if ra.err then
-    pure { err := some baseOtError, c := [], msg := { otA := ra.msg2, otB := zeroOtMsg, core := zeroMsg2 }, tape }
+  let sids ← otSids O sid
+  let ra ← Endemic.sendProcess O sids.1 msg1.a tape
+  if ra.1.err then
+    pure { err := some baseOtError, c := [], msg := { otA := ra.1.msg2, otB := zeroOtMsg, core := zeroMsg2 }, tape := ra.2 }
   else do
-    let (rb, tape) ← Endemic.sendProcess O sidB msg1.b tape
-    if rb.err then
-      pure { err := some baseOtError, c := [], msg := { otA := ra.msg2, otB := rb.msg2, core := zeroMsg2 }, tape }
+    let rb ← Endemic.sendProcess O sids.2 msg1.b ra.2
+    if rb.1.err then
+      pure { err := some baseOtError, c := [], msg := { otA := ra.1.msg2, otB := rb.1.msg2, core := zeroMsg2 }, tape := rb.2 }
     else do
-      let (v0, v1) ← senderVOt O sid (ra.keys ++ rb.keys)
+      let v ← senderVOt O sid (ra.1.keys ++ rb.1.keys)
       let g ← gadgetVec O sid
-      let (c, core, tape) ← senderCore O sid g v0 v1 a tape
-      pure { err := none, c, msg := { otA := ra.msg2, otB := rb.msg2, core }, tape }
+      let r ← senderCore O sid g v.1 v.2 a rb.2
+      pure { err := none, c := r.1, msg := { otA := ra.1.msg2, otB := rb.1.msg2, core := r.2.1 }, tape := r.2.2 }
 
 /-! ### C02: the calibrated adversarial sender -/
 
@@ -445,14 +456,14 @@ def advSender (O : Query → m Bytes) (sid : Bytes) (rc : List Nat) (decKeys : L
 /-- the adversarial sender of the base-OT variant (honest base OTs; `none`: message 1 did not decode) -/
 def advSenderOt (O : Query → m Bytes) (sid : Bytes) (a : List Nat) (msg1 : Msg1) (tape : Tape) (devs : List Dev) :
     m (Option (List Nat × Msg2Ot × Tape)) := do
-  let (sidA, sidB) ← otSids O sid
-  let (ra, tape) ← Endemic.sendProcess O sidA msg1.a tape
-  let (rb, tape) ← Endemic.sendProcess O sidB msg1.b tape
-  if ra.err || rb.err then pure none else do
-    let (v0, v1) ← senderVOt O sid (ra.keys ++ rb.keys)
+  let sids ← otSids O sid
+  let ra ← Endemic.sendProcess O sids.1 msg1.a tape
+  let rb ← Endemic.sendProcess O sids.2 msg1.b ra.2
+  if ra.1.err || rb.1.err then pure none else do
+    let v ← senderVOt O sid (ra.1.keys ++ rb.1.keys)
     let g ← gadgetVec O sid
-    let (c, core, tape) ← advCore O sid g v0 v1 a tape devs
-    pure (some (c, { otA := ra.msg2, otB := rb.msg2, core }, tape))
+    let r ← advCore O sid g v.1 v.2 a rb.2 devs
+    pure (some (r.1, { otA := ra.1.msg2, otB := rb.1.msg2, core := r.2.1 }, r.2.2))
 
 /-! ### C02: tampering in transit, on the serialised message -/
 
